@@ -472,7 +472,45 @@ def dc_catalogue() -> list[dict]:
             for delta in (-1, 1):
                 cases.append({"kind": "system_shape", "system": name,
                               "which": which, "delta": delta})
+    for sd, cd in ((2, 2), (3, 2), (3, 3), (2, 1)):
+        for n_test, n_train in ((1, 2), (0, 2), (2, 0)):
+            cases.append({"kind": "multi_run", "sd": sd, "cd": cd,
+                          "tests": n_test, "training": n_train})
     return cases
+
+
+def check_multi_run(ctx: Ctx, case: dict) -> None:
+    """multi_run_ode with compiled controllers / equations that have several
+    control values: every simulation gets arrays of the controller's size."""
+    import numba
+    import numpy as np
+    from moptipyapps.dynamic_control.controllers.ann import make_ann
+    from moptipyapps.dynamic_control.ode import multi_run_ode
+    sd, cd = case["sd"], case["cd"]
+    controller = make_ann(sd, cd, [sd])
+
+    @numba.njit(cache=False)
+    def eq(s: Any, _t: float, c: Any, out: Any) -> None:
+        for i in range(sd):
+            out[i] = -0.5 * s[i] + 0.1 * c[i % cd]
+
+    shapes: list = []
+
+    def collect(i: int, ode: Any, _j: float, _t: float) -> None:
+        shapes.append((i, ode.shape))
+
+    def states(k: int) -> list:
+        return [np.linspace(0.2 + i, 0.7 + i, sd) for i in range(k)]
+
+    params = np.linspace(-0.3, 0.3, controller.param_dims)
+    multi_run_ode(states(case["tests"]), states(case["training"]), collect,
+                  eq, controller.controller, params, cd, 9, 0.5, 7, 0.4,
+                  -1, 0.1)
+    want = [(i, (9, sd + cd + 1)) for i in range(case["tests"])] + [
+        (case["tests"] + i, (7, sd + cd + 1))
+        for i in range(case["training"])]
+    require(shapes == want, lambda: f"multi_run_ode({sd} state, {cd} control "
+            f"dims) produced results of shapes {shapes}, expected {want}")
 
 
 def _dc_small(name: str) -> Any:
@@ -537,7 +575,8 @@ def check_catalogue(ctx: Ctx, case: dict) -> None:
     kind = case["kind"]
     fn = {"ttp": check_ttp, "bp": check_bp, "mat": check_mat,
           "swap": check_misc, "game": check_misc, "ann": check_ann,
-          "model_objective": check_dc, "system_shape": check_dc}[kind]
+          "model_objective": check_dc, "system_shape": check_dc,
+          "multi_run": check_multi_run}[kind]
     fn(ctx, case)
 
 
